@@ -27,6 +27,7 @@ class Probe(urwid.Widget):
     """sizing: iterable of 'box'/'flow'/'fixed'; nat=(cols, rows) natural size (fixed pack, flow rows)."""
 
     ignore_focus = False
+    focus_extra = 0  # extra rows a flow probe takes while it is rendered / measured in focus (a line that expands when selected)
 
     def __init__(self, name, sizing=("flow",), nat=(2, 1), selectable=False, cursor=None, accept=None, keys=()):
         super().__init__()
@@ -56,7 +57,7 @@ class Probe(urwid.Widget):
         return (size[0], size[1])
 
     def rows(self, size, focus=False):
-        return self.nat[1]
+        return self.nat[1] + (self.focus_extra if focus else 0)
 
     def pack(self, size=(), focus=False):
         if not size:
@@ -78,6 +79,8 @@ class Probe(urwid.Widget):
         self.log.append(("render", tuple(size), bool(focus)))
         self._check(size, "render")
         c, r = self.dims(size)
+        if len(size) == 1 and focus:
+            r += self.focus_extra
         text = []
         attr = []
         for y in range(r):
